@@ -225,15 +225,6 @@ pub fn run(ch: &mut Ch, verbose: bool) -> Outcome {
                 }
             };
             let kind = call_kind(call);
-            let mut h = Fnv::default();
-            h.u64(doc_hash.0);
-            h.u64(k as u64);
-            h.byte(match mode {
-                Mode::Once(_) => 1,
-                Mode::From(_) => 2,
-                _ => 3,
-            });
-            out.nontrivial.push(h.0);
             let mut h2 = Fnv::default();
             h2.bytes(kind.as_bytes());
             h2.byte(doc.newlines as u8);
@@ -291,6 +282,9 @@ pub fn run(ch: &mut Ch, verbose: bool) -> Outcome {
             }
         }
     }
+    // distinct (document, fault position, mode) triples: 3 per write call of
+    // this document, counted once per distinct document
+    out.weighted.push((doc_hash.0, 3 * n as u64));
     out.stats.add("sink.faulted-writes", units - 1);
     out.units = units;
     let mut h = Fnv::default();
